@@ -17,6 +17,7 @@ use subj::{Built, Kind, Ran, Sem};
 static GLOBAL: alloc::Counting = alloc::Counting;
 
 pub const BASE: usize = 1024;
+const FOREIGN: [u8; 96] = [0xAA; 96];
 
 #[derive(Clone, Copy, PartialEq, Eq, Debug)]
 pub enum Place {
@@ -52,12 +53,12 @@ pub struct Ctx {
     guard: Arena,
     pre: Vec<u8>,
     post: Vec<u8>,
-    heap: Vec<u8>,
+    heap: mcore::arena::HeapSlice,
 }
 
 impl Ctx {
     pub fn new() -> Ctx {
-        Ctx { plain: Arena::plain(8), guard: Arena::guarded(2), pre: vec![], post: vec![], heap: vec![] }
+        Ctx { plain: Arena::plain(8), guard: Arena::guarded(2), pre: vec![], post: vec![], heap: mcore::arena::HeapSlice::empty() }
     }
 
     /// Neighbour bytes: copies of the needle on both sides, so that a read
@@ -81,21 +82,18 @@ impl Ctx {
 
     pub fn place(&mut self, place: Place, a: usize, data: &[u8]) -> &[u8] {
         match place {
-            Place::Plain => self.plain.place(BASE + a, data, &self.pre, &self.post),
+            // even offsets: neighbours are copies of the needle (a read
+            // outside the slice that is USED gives a wrong answer); odd
+            // offsets: foreign bytes (a search that wrongly DEPENDS on bytes
+            // outside the slice fails)
+            Place::Plain if a % 2 == 0 => self.plain.place(BASE + a, data, &self.pre, &self.post),
+            Place::Plain => self.plain.place(BASE + a, data, &FOREIGN, &FOREIGN),
             Place::GuardEnd => {
                 let off = self.guard.flush_end(data.len());
                 self.guard.place(off, data, &self.pre, &self.post)
             }
             Place::GuardStart => self.guard.place(0, data, &self.pre, &self.post),
-            Place::Heap => {
-                let a = a % 4;
-                let mut v: Vec<u8> = Vec::with_capacity(a + data.len());
-                v.extend(std::iter::repeat(b'a').take(a));
-                v.extend_from_slice(data);
-                assert_eq!(v.capacity(), a + data.len());
-                self.heap = v;
-                &self.heap[a..]
-            }
+            Place::Heap => self.heap.place(a % 8, data, b'a'),
         }
     }
 }
@@ -546,7 +544,10 @@ fn run_ln(
 }
 
 fn main() {
-    mcore::install_quiet_panic_hook();
+    mcore::run_main(real_main);
+}
+
+fn real_main() {
     let args = Args::parse();
     let mode = args.pos.first().map(|s| s.as_str()).unwrap_or("help").to_string();
     let out = args.str("out", "-");
